@@ -431,7 +431,8 @@ func c13Run(c c13Case, st *fw.Stats) []fw.Viol {
 			add("method:accepted-empty", "Add(\"/e\", h, \"\", \" \") was accepted with no method name")
 		}
 		// options changed after routes exist
-		for _, p := range []string{"/s", "/d/{id}", "/o[/x]"} {
+		// (also when the only route is the catch-all "/*", which a HandleFallbackRoute router files separately)
+		for _, p := range []string{"/s", "/d/{id}", "/o[/x]", "/*", "/{all}"} {
 			st.Evals++
 			r := rux.New(opts...)
 			r.GET(p, c13Noop)
